@@ -69,13 +69,14 @@ impl Source for FileSystem {
         let path = self.path_of(DirEntry::File(id, ext));
         match fs::read(&path) {
             Ok(buf) => Ok(super::FileContent::Buffer(buf)),
-            Err(err) => Err(read_error(err, path)),
+            Err(err) => Err(read_error(err, path.is_file(), path)),
         }
     }
 
     fn read_dir(&self, id: &str, f: &mut dyn FnMut(DirEntry)) -> io::Result<()> {
         let dir_path = self.path_of(DirEntry::Directory(id));
-        let entries = fs::read_dir(&dir_path).map_err(|err| read_error(err, dir_path))?;
+        let entries =
+            fs::read_dir(&dir_path).map_err(|err| read_error(err, dir_path.is_dir(), dir_path))?;
 
         let mut entry_id = id.to_owned();
 
@@ -109,7 +110,11 @@ impl Source for FileSystem {
     }
 
     fn exists(&self, entry: DirEntry) -> bool {
-        self.path_of(entry).exists()
+        let path = self.path_of(entry);
+        match entry {
+            DirEntry::File(..) => path.is_file(),
+            DirEntry::Directory(_) => path.is_dir(),
+        }
     }
 
     fn make_source(&self) -> Option<Box<dyn Source + Send>> {
@@ -132,8 +137,11 @@ impl fmt::Debug for FileSystem {
     }
 }
 
+/// `right_kind` tells whether `path` is an entry of the requested kind (a file
+/// for `read`, a directory for `read_dir`). If it is not, the entry is reported
+/// as missing, like other sources do.
 #[cold]
-pub fn read_error(err: io::Error, path: PathBuf) -> io::Error {
+pub fn read_error(err: io::Error, right_kind: bool, path: PathBuf) -> io::Error {
     #[derive(Debug)]
     struct Error {
         err: io::Error,
@@ -152,5 +160,11 @@ pub fn read_error(err: io::Error, path: PathBuf) -> io::Error {
         }
     }
 
-    io::Error::new(err.kind(), Error { err, path })
+    let kind = if right_kind {
+        err.kind()
+    } else {
+        io::ErrorKind::NotFound
+    };
+
+    io::Error::new(kind, Error { err, path })
 }
